@@ -1,43 +1,498 @@
-//! probe (temporary)
-use samyama::graph::GraphStore;
+//! C11 — unique constraints reject exactly the duplicates.
+//!
+//! Statement histories (CREATE CONSTRAINT / CREATE / SET / REMOVE / SET :L / REMOVE :L / DELETE)
+//! are run through `QueryEngine::execute_mut` (MutQueryExecutor) on a fresh store; after every
+//! statement the result class and the whole graph (`MATCH (n) RETURN …`) are observed.
+//! The property's own predicate is evaluated against a plain Rust reference graph: a write is
+//! refused iff it would leave two live nodes of a constrained label with equal values, a refused
+//! write changes nothing, an accepted one has exactly its effect, and no such pair ever exists.
+//! The same observations are printed as a Gallina case for coq/model/Constraint.v.
+use samyama::graph::{GraphStore, PropertyValue};
+use samyama::query::executor::record::Value;
 use samyama::query::QueryEngine;
+use std::collections::{BTreeMap, BTreeSet};
+use vh::*;
 
-fn run(e: &QueryEngine, s: &mut GraphStore, q: &str) {
-    let r = vh::catch(std::panic::AssertUnwindSafe(|| e.execute_mut(q, s, "default").map(|b| {
-        b.records.iter().map(|r| format!("{:?}", b.columns.iter().map(|c| r.get(c).map(|v| format!("{:?}", v))).collect::<Vec<_>>())).collect::<Vec<_>>()
-    }).map_err(|e| e.to_string())));
-    println!("  {:<50} -> {:?}", q, r);
-}
-fn main() {
-    vh::quiet_panics();
-    let scen: Vec<Vec<&str>> = vec![
-        vec!["CREATE CONSTRAINT ON (n:L) ASSERT n.k IS UNIQUE", "CREATE (:L {k: 1})", "CREATE (:L {k: 1})", "MATCH (n:L) SET n.k = 2", "CREATE (:L {k: 1})", "MATCH (n:L) RETURN n.k"],
-        vec!["CREATE CONSTRAINT ON (n:L) ASSERT n.k IS UNIQUE", "CREATE (:L {k: 1})", "MATCH (n:L) REMOVE n.k", "CREATE (:L {k: 1})", "MATCH (n:L) RETURN n.k"],
-        vec!["CREATE CONSTRAINT ON (n:L) ASSERT n.k IS UNIQUE", "CREATE (:L {k: 1})", "MATCH (n:L) REMOVE n:L", "CREATE (:L {k: 1})", "MATCH (n:L) RETURN n.k"],
-        vec!["CREATE CONSTRAINT ON (n:L) ASSERT n.k IS UNIQUE", "CREATE (:L {k: 1})", "MATCH (n:L) DELETE n", "CREATE (:L {k: 1})", "MATCH (n:L) RETURN n.k"],
-        vec!["CREATE CONSTRAINT ON (n:L) ASSERT n.k IS UNIQUE", "CREATE (:L {k: 1})", "CREATE (:M {k: 1})", "MATCH (n:M) SET n:L", "MATCH (n:L) RETURN n.k"],
-        vec!["CREATE CONSTRAINT ON (n:L) ASSERT n.k IS UNIQUE", "CREATE (:L {k: 1})", "CREATE (:L {k: 1.0})", "CREATE (:L {k: 'a'})", "CREATE (:L {k: 'a '})", "CREATE (:L {k: null})", "CREATE (:L {k: null})", "CREATE (:L)", "MATCH (n:L) RETURN n.k"],
-        vec!["CREATE (:L {k: 1})", "CREATE (:L {k: 1})", "CREATE CONSTRAINT ON (n:L) ASSERT n.k IS UNIQUE", "MATCH (n:L) RETURN n.k"],
-        vec!["CREATE (:L {k: 1})", "CREATE (:L {k: 1.0})", "CREATE CONSTRAINT ON (n:L) ASSERT n.k IS UNIQUE", "MATCH (n:L) RETURN n.k"],
-        vec!["CREATE CONSTRAINT ON (n:L) ASSERT n.k IS UNIQUE", "CREATE (:L {k: 1})", "CREATE (:L {k: 2})", "MATCH (n:L) WHERE n.k = 2 SET n.k = 1", "MATCH (n:L) SET n.k = n.k", "MATCH (n:L) RETURN n.k"],
-        vec!["CREATE CONSTRAINT ON (n:L) ASSERT n.k IS UNIQUE", "CREATE (:L {k: 1})", "MATCH (n:L) SET n.k = null", "CREATE (:L {k: 1})", "MATCH (n:L) RETURN n.k"],
-        vec!["CREATE CONSTRAINT ON (n:L) ASSERT n.k IS UNIQUE", "CREATE (:L {k: 1})", "MATCH (n:L) SET n = {j: 5}", "CREATE (:L {k: 1})", "MATCH (n:L) RETURN n.k"],
-        vec!["CREATE CONSTRAINT ON (n:L) ASSERT n.k IS UNIQUE", "MERGE (:L {k: 1})", "MERGE (:L {k: 1})", "CREATE (:L {k: 1})", "MATCH (n:L) RETURN n.k"],
-        vec!["CREATE CONSTRAINT ON (n:L) ASSERT n.k IS UNIQUE", "CREATE (:L {k: 1}), (:L {k: 1})", "MATCH (n:L) RETURN n.k"],
-        vec!["CREATE CONSTRAINT ON (n:L) ASSERT n.k IS UNIQUE", "CREATE (:L {k: 1})-[:R]->(:L {k: 1})", "MATCH (n:L) RETURN n.k"],
-        vec!["CREATE CONSTRAINT ON (n:L) ASSERT n.k IS UNIQUE", "CREATE (:L {k: 1})", "CREATE (:L {k: 2})", "MATCH (n:L) SET n.k = 3", "MATCH (n:L) RETURN n.k"],
-    ];
-    for sc in scen {
-        println!("---");
-        let e = QueryEngine::new();
-        let mut s = GraphStore::new();
-        for q in sc { run(&e, &mut s, q); }
+const LABELS: [&str; 2] = ["L", "M"]; // codes 1, 2
+const KEYS: [&str; 2] = ["k", "j"]; // codes 1, 2
+
+/// value codes 1..=6 (two values share a code iff they are equal as BTreeMap keys)
+fn lit(code: u64) -> &'static str {
+    match code {
+        1 => "1",
+        2 => "2",
+        3 => "3",
+        4 => "1.0",
+        5 => "'a'",
+        6 => "'a '",
+        _ => unreachable!(),
     }
-    // column-only node (stub path) then constraint backfill
-    println!("--- stub/column path");
-    let e = QueryEngine::new();
-    let mut s = GraphStore::new();
-    let id = s.create_node_stub("L");
-    s.node_columns.set_property(id.as_u64() as usize, "k", samyama::graph::PropertyValue::Integer(1));
-    for q in ["MATCH (n:L) RETURN n.k", "CREATE CONSTRAINT ON (n:L) ASSERT n.k IS UNIQUE", "CREATE (:L {k: 1})", "MATCH (n:L) RETURN n.k"] { run(&e, &mut s, q); }
+}
+fn pv_of(code: u64) -> PropertyValue {
+    match code {
+        1 => PropertyValue::Integer(1),
+        2 => PropertyValue::Integer(2),
+        3 => PropertyValue::Integer(3),
+        4 => PropertyValue::Float(1.0),
+        5 => PropertyValue::String("a".into()),
+        6 => PropertyValue::String("a ".into()),
+        _ => unreachable!(),
+    }
+}
+fn code_of(v: &PropertyValue) -> Option<Option<u64>> {
+    if v.is_null() {
+        return Some(None);
+    }
+    for c in 1..=6 {
+        let p = pv_of(c);
+        let same_type = std::mem::discriminant(&p) == std::mem::discriminant(v);
+        if same_type && p == *v {
+            return Some(Some(c));
+        }
+    }
+    None
+}
+
+#[derive(Clone, Debug, PartialEq)]
+enum Op {
+    Constraint(u64, u64),
+    Create(Vec<u64>, Vec<(u64, u64)>),
+    Set(u64, u64, Option<u64>),
+    RemoveProp(u64, u64),
+    AddLabel(u64, u64),
+    RemoveLabel(u64, u64),
+    Delete(u64),
+}
+
+fn g_op(o: &Op) -> String {
+    let l = |v: &Vec<u64>| g_list(v.iter().map(|x| x.to_string()));
+    match o {
+        Op::Constraint(a, b) => format!("CreateConstraint {} {}", a, b),
+        Op::Create(ls, ps) => format!("CreateNode {} {}", l(ls), g_list(ps.iter().map(|(k, v)| format!("({}, {})", k, v)))),
+        Op::Set(i, k, v) => format!("SetProp {} {} {}", i, k, g_opt(v.map(|x| x.to_string()))),
+        Op::RemoveProp(i, k) => format!("RemoveProp {} {}", i, k),
+        Op::AddLabel(i, l) => format!("AddLabel {} {}", i, l),
+        Op::RemoveLabel(i, l) => format!("RemoveLabel {} {}", i, l),
+        Op::Delete(i) => format!("Delete {}", i),
+    }
+}
+
+fn cypher(o: &Op, tag: u64) -> String {
+    let lab = |c: u64| LABELS[c as usize - 1];
+    let key = |c: u64| KEYS[c as usize - 1];
+    match o {
+        Op::Constraint(l, k) => format!("CREATE CONSTRAINT ON (n:{}) ASSERT n.{} IS UNIQUE", lab(*l), key(*k)),
+        Op::Create(ls, ps) => {
+            let mut s = String::from("CREATE (");
+            for l in ls {
+                s.push_str(&format!(":{}", lab(*l)));
+            }
+            s.push_str(&format!(" {{t: {}", tag));
+            for (k, v) in ps {
+                s.push_str(&format!(", {}: {}", key(*k), lit(*v)));
+            }
+            s.push_str("})");
+            s
+        }
+        Op::Set(i, k, v) => format!("MATCH (n {{t: {}}}) SET n.{} = {}", i, key(*k), v.map_or("null", lit)),
+        Op::RemoveProp(i, k) => format!("MATCH (n {{t: {}}}) REMOVE n.{}", i, key(*k)),
+        Op::AddLabel(i, l) => format!("MATCH (n {{t: {}}}) SET n:{}", i, lab(*l)),
+        Op::RemoveLabel(i, l) => format!("MATCH (n {{t: {}}}) REMOVE n:{}", i, lab(*l)),
+        Op::Delete(i) => format!("MATCH (n {{t: {}}}) DELETE n", i),
+    }
+}
+
+// ---------------------------------------------------------------- reference graph (the oracle)
+#[derive(Clone, Debug, PartialEq, Default)]
+struct RefNode {
+    labels: BTreeSet<u64>,
+    props: BTreeMap<u64, u64>,
+}
+#[derive(Clone, Debug, PartialEq, Default)]
+struct RefGraph {
+    nodes: BTreeMap<u64, RefNode>,
+    cons: BTreeSet<(u64, u64)>,
+}
+impl RefGraph {
+    /// two live nodes of a constrained label with equal values for the constrained key
+    fn duplicate(&self) -> Option<(u64, u64, u64, u64, u64)> {
+        for &(l, k) in &self.cons {
+            let mut seen: BTreeMap<u64, u64> = BTreeMap::new();
+            for (id, n) in &self.nodes {
+                if n.labels.contains(&l) {
+                    if let Some(v) = n.props.get(&k) {
+                        if let Some(other) = seen.insert(*v, *id) {
+                            return Some((l, k, *v, other, *id));
+                        }
+                    }
+                }
+            }
+        }
+        None
+    }
+    /// the graph the statement asks for, constraints not considered
+    fn wanted(&self, o: &Op, tag: u64) -> RefGraph {
+        let mut g = self.clone();
+        match o {
+            Op::Constraint(l, k) => {
+                g.cons.insert((*l, *k));
+            }
+            Op::Create(ls, ps) => {
+                let mut n = RefNode::default();
+                n.labels = ls.iter().cloned().collect();
+                for (k, v) in ps {
+                    n.props.insert(*k, *v);
+                }
+                g.nodes.insert(tag, n);
+            }
+            Op::Set(i, k, v) => {
+                if let Some(n) = g.nodes.get_mut(i) {
+                    match v {
+                        Some(x) => {
+                            n.props.insert(*k, *x);
+                        }
+                        None => {
+                            n.props.remove(k);
+                        }
+                    }
+                }
+            }
+            Op::RemoveProp(i, k) => {
+                if let Some(n) = g.nodes.get_mut(i) {
+                    n.props.remove(k);
+                }
+            }
+            Op::AddLabel(i, l) => {
+                if let Some(n) = g.nodes.get_mut(i) {
+                    n.labels.insert(*l);
+                }
+            }
+            Op::RemoveLabel(i, l) => {
+                if let Some(n) = g.nodes.get_mut(i) {
+                    n.labels.remove(l);
+                }
+            }
+            Op::Delete(i) => {
+                g.nodes.remove(i);
+            }
+        }
+        g
+    }
+}
+
+// ---------------------------------------------------------------- the implementation
+#[derive(Clone, Debug, PartialEq)]
+enum Class {
+    Ok,
+    Violation,
+    Refused,
+    Other(String),
+}
+
+fn exec(e: &QueryEngine, s: &mut GraphStore, q: &str) -> Class {
+    let r = catch(std::panic::AssertUnwindSafe(|| e.execute_mut(q, s, "default").map(|_| ()).map_err(|e| e.to_string())));
+    match r {
+        Err(p) => Class::Other(format!("panic: {}", p)),
+        Ok(Ok(())) => Class::Ok,
+        Ok(Err(m)) => {
+            if m.contains("onstraint violation") {
+                Class::Violation
+            } else if m.contains("Cannot create unique constraint") {
+                Class::Refused
+            } else {
+                Class::Other(m)
+            }
+        }
+    }
+}
+
+/// (tag, hasL, hasM, k, j) for every node, ordered by tag; Err on anything unreadable
+fn observe(e: &QueryEngine, s: &mut GraphStore) -> Result<Vec<(u64, bool, bool, Option<u64>, Option<u64>)>, String> {
+    let b = e
+        .execute_mut("MATCH (n) RETURN n.t AS t, n.k AS k, n.j AS j, n:L AS l, n:M AS m", s, "default")
+        .map_err(|e| format!("observation query failed: {}", e))?;
+    let mut v = Vec::new();
+    for r in &b.records {
+        let p = |c: &str| -> Result<PropertyValue, String> {
+            match r.get(c) {
+                Some(Value::Property(p)) => Ok(p.clone()),
+                Some(Value::Null) => Ok(PropertyValue::Null),
+                other => Err(format!("column {} is {:?}", c, other)),
+            }
+        };
+        let t = match p("t")? {
+            PropertyValue::Integer(i) => i as u64,
+            o => return Err(format!("tag is {:?}", o)),
+        };
+        let bl = |c: &str| -> Result<bool, String> {
+            match p(c)? {
+                PropertyValue::Boolean(b) => Ok(b),
+                o => Err(format!("label test {} is {:?}", c, o)),
+            }
+        };
+        let k = code_of(&p("k")?).ok_or_else(|| format!("k of node {} is outside the domain: {:?}", t, p("k")))?;
+        let j = code_of(&p("j")?).ok_or_else(|| format!("j of node {} is outside the domain: {:?}", t, p("j")))?;
+        v.push((t, bl("l")?, bl("m")?, k, j));
+    }
+    v.sort();
+    Ok(v)
+}
+
+fn ref_obs(g: &RefGraph) -> Vec<(u64, bool, bool, Option<u64>, Option<u64>)> {
+    g.nodes
+        .iter()
+        .map(|(id, n)| (*id, n.labels.contains(&1), n.labels.contains(&2), n.props.get(&1).cloned(), n.props.get(&2).cloned()))
+        .collect()
+}
+
+fn g_obs(c: &Class, v: &[(u64, bool, bool, Option<u64>, Option<u64>)]) -> String {
+    let r = match c {
+        Class::Ok => "ROk",
+        Class::Violation => "RViolation",
+        Class::Refused | Class::Other(_) => "RRefused",
+    };
+    format!(
+        "({}, {})",
+        r,
+        g_list(v.iter().map(|(t, l, m, k, j)| format!(
+            "({}, {}, {}, {}, {})",
+            t,
+            g_bool(*l),
+            g_bool(*m),
+            g_opt(k.map(|x| x.to_string())),
+            g_opt(j.map(|x| x.to_string()))
+        )))
+    )
+}
+
+/// Run one history. `stub_prefix`: leading single-label CREATEs (before any constraint) are loaded
+/// through the stub/column path (create_node_stub + column writes), as a bulk load does.
+fn run_case(out: &mut Out, engine: &QueryEngine, ops: &[Op], stub_prefix: bool, kind: &str) {
+    let idx = out.next_index();
+    if !out.wants(idx) {
+        out.skip();
+        return;
+    }
+    let mut store = GraphStore::new();
+    let mut g = RefGraph::default();
+    let mut tag = 0u64;
+    let mut obs_terms = Vec::new();
+    let mut bad: Option<String> = None;
+    let mut texts = Vec::new();
+    let mut still_prefix = stub_prefix;
+    let (mut n_viol, mut n_refused, mut n_after_change) = (0, 0, 0);
+    let mut changed_value = false;
+    for o in ops {
+        if let Op::Create(..) = o {
+            tag += 1;
+        }
+        let q = cypher(o, tag);
+        let via_stub = still_prefix && matches!(o, Op::Create(ls, _) if ls.len() == 1);
+        if !via_stub {
+            still_prefix = false;
+        }
+        let class = if via_stub {
+            if let Op::Create(ls, ps) = o {
+                let id = store.create_node_stub(LABELS[ls[0] as usize - 1]);
+                let i = id.as_u64() as usize;
+                store.node_columns.set_property(i, "t", PropertyValue::Integer(tag as i64));
+                for (k, v) in ps {
+                    store.node_columns.set_property(i, KEYS[*k as usize - 1], pv_of(*v));
+                }
+            }
+            texts.push(format!("[stub] {}", q));
+            Class::Ok
+        } else {
+            texts.push(q.clone());
+            exec(engine, &mut store, &q)
+        };
+        // ---- the property's predicate, against the reference graph
+        let wanted = g.wanted(o, tag);
+        let expect_refusal = wanted.duplicate();
+        match (&class, &expect_refusal) {
+            (Class::Other(m), _) => bad = bad.or(Some(format!("`{}` failed unexpectedly: {}", q, m))),
+            (Class::Ok, Some(d)) => {
+                bad = bad.or(Some(format!(
+                    "`{}` was accepted although nodes {} and {} of label {} would both hold {} = {}",
+                    q, d.3, d.4, LABELS[d.0 as usize - 1], KEYS[d.1 as usize - 1], lit(d.2)
+                )))
+            }
+            (Class::Violation | Class::Refused, None) => {
+                bad = bad.or(Some(format!("`{}` was refused although no other live node holds the value", q)))
+            }
+            _ => {}
+        }
+        if expect_refusal.is_none() && class == Class::Ok {
+            g = wanted;
+        }
+        match class {
+            Class::Violation => n_viol += 1,
+            Class::Refused => n_refused += 1,
+            _ => {}
+        }
+        if matches!(o, Op::Set(..) | Op::RemoveProp(..) | Op::RemoveLabel(..) | Op::Delete(..)) && !g.cons.is_empty() {
+            changed_value = true;
+        }
+        if changed_value && matches!(o, Op::Create(..) | Op::Set(_, _, Some(_)) | Op::AddLabel(..)) {
+            n_after_change += 1;
+        }
+        let seen = match observe(engine, &mut store) {
+            Ok(v) => v,
+            Err(m) => {
+                bad = bad.or(Some(m));
+                Vec::new()
+            }
+        };
+        if bad.is_none() && seen != ref_obs(&g) {
+            bad = Some(format!("after `{}` ({:?}) the graph is {:?}, expected {:?}", q, class, seen, ref_obs(&g)));
+        }
+        // independent of the reference bookkeeping: no duplicate pair in what the engine shows
+        if bad.is_none() {
+            for &(l, k) in &g.cons {
+                let mut vals = BTreeSet::new();
+                for n in &seen {
+                    let has = if l == 1 { n.1 } else { n.2 };
+                    let v = if k == 1 { n.3 } else { n.4 };
+                    if has {
+                        if let Some(v) = v {
+                            if !vals.insert(v) {
+                                bad = Some(format!("two live :{} nodes hold {} = {} after `{}`", LABELS[l as usize - 1], KEYS[k as usize - 1], lit(v), q));
+                            }
+                        }
+                    }
+                }
+            }
+        }
+        obs_terms.push(g_obs(&class, &seen));
+    }
+    let human = format!("{} {}", kind, texts.join(" ; "));
+    out.case(
+        format!("({}, {})", g_list(ops.iter().map(g_op)), g_list(obs_terms)),
+        human.clone(),
+        n_viol + n_refused > 0,
+    );
+    out.count("histories");
+    out.count_n("statements", ops.len() as u64);
+    out.count_n("violations_refused", n_viol);
+    out.count_n("constraint_creation_refused", n_refused);
+    out.count_n("writes_after_value_change", n_after_change);
+    if stub_prefix {
+        out.count("with_stub_loaded_prefix");
+    }
+    if let Some(d) = bad {
+        out.fail(idx, &human, &d, None);
+    }
+}
+
+fn small_alphabet() -> Vec<Op> {
+    vec![
+        Op::Constraint(1, 1),
+        Op::Create(vec![1], vec![(1, 1)]),
+        Op::Create(vec![1], vec![(1, 2)]),
+        Op::Create(vec![2], vec![(1, 1)]),
+        Op::Set(1, 1, Some(1)),
+        Op::Set(1, 1, Some(2)),
+        Op::Set(2, 1, Some(1)),
+        Op::Set(1, 1, None),
+        Op::RemoveProp(1, 1),
+        Op::AddLabel(2, 1),
+        Op::RemoveLabel(1, 1),
+        Op::Delete(1),
+        Op::Delete(2),
+    ]
+}
+
+fn random_op(r: &mut Rng, rich: bool) -> Op {
+    let id = r.range(1, 4);
+    let vmax = if rich { 6 } else { 3 };
+    let key = if rich && r.chance(1, 4) { 2 } else { 1 };
+    let lab = if r.chance(1, 4) { 2 } else { 1 };
+    match r.below(20) {
+        0 | 1 => Op::Constraint(lab, key),
+        2..=6 => {
+            let ls = match r.below(6) {
+                0 => vec![],
+                1 => vec![2],
+                2 => vec![1, 2],
+                _ => vec![1],
+            };
+            let mut ps = Vec::new();
+            if r.chance(5, 6) {
+                ps.push((1, r.range(1, vmax)));
+            }
+            if rich && r.chance(1, 3) {
+                ps.push((2, r.range(1, vmax)));
+            }
+            Op::Create(ls, ps)
+        }
+        7..=11 => Op::Set(id, key, if r.chance(1, 8) { None } else { Some(r.range(1, vmax)) }),
+        12 | 13 => Op::RemoveProp(id, key),
+        14 | 15 => Op::AddLabel(id, lab),
+        16 | 17 => Op::RemoveLabel(id, lab),
+        _ => Op::Delete(id),
+    }
+}
+
+fn main() {
+    let args = parse_args();
+    quiet_panics();
+    // the value codes really are pairwise different keys, and equal to themselves
+    for a in 1..=6u64 {
+        for b in 1..=6u64 {
+            let (x, y) = (pv_of(a), pv_of(b));
+            assert_eq!(x == y, a == b, "PropertyValue equality on the domain ({} vs {})", lit(a), lit(b));
+            assert_eq!(x.cmp(&y) == std::cmp::Ordering::Equal, a == b, "PropertyValue order on the domain");
+        }
+    }
+    let mut out = Out::new(&args, "From Verif Require Import Constraint.", "Constraint.case", "Constraint.check_case", 300);
+    out.rule = "after every statement of a history: refused iff the write would leave two live nodes of a constrained label with equal values (reference graph), a refused write changes nothing, an accepted write has exactly its effect, and the graph the engine shows has no such pair".into();
+    let engine = QueryEngine::new();
+    let alpha = small_alphabet();
+    let n = alpha.len();
+
+    // exhaustive short histories over the small alphabet
+    let exhaustive_len = if args.thorough { 4 } else { 3 };
+    for len in 1..=exhaustive_len {
+        let total = n.pow(len as u32);
+        for code in 0..total {
+            let mut c = code;
+            let mut ops = Vec::new();
+            for _ in 0..len {
+                ops.push(alpha[c % n].clone());
+                c /= n;
+            }
+            run_case(&mut out, &engine, &ops, false, "exh");
+        }
+    }
+    // sampled length-4/5 histories over the small alphabet
+    let n4 = if args.thorough { 6000 } else { 1200 };
+    for i in 0..n4 {
+        let mut r = Rng::for_case(args.seed, i);
+        let len = r.range(4, 5) + if args.thorough { 1 } else { 0 };
+        let ops: Vec<Op> = (0..len).map(|_| r.pick(&alpha).clone()).collect();
+        run_case(&mut out, &engine, &ops, r.chance(1, 6), "small");
+    }
+    // random longer histories over the rich domain (two labels, two keys, 1 vs 1.0, 'a' vs 'a ')
+    let nr = if args.thorough { 12000 } else { 1500 };
+    for i in 0..nr {
+        let mut r = Rng::for_case(args.seed ^ 0xC11, 1_000_000 + i);
+        let len = r.range(4, 14);
+        let rich = r.chance(2, 3);
+        let mut ops: Vec<Op> = Vec::new();
+        // often: load first, constrain later (backfill), sometimes through the stub path
+        let stub = r.chance(1, 4);
+        if stub || r.chance(1, 3) {
+            for _ in 0..r.range(1, 4) {
+                ops.push(Op::Create(vec![if r.chance(3, 4) { 1 } else { 2 }], vec![(1, r.range(1, if rich { 6 } else { 3 }))]));
+            }
+            ops.push(Op::Constraint(1, 1));
+        } else if r.chance(2, 3) {
+            ops.push(Op::Constraint(1, 1));
+        }
+        for _ in 0..len {
+            ops.push(random_op(&mut r, rich));
+        }
+        run_case(&mut out, &engine, &ops, stub, "rand");
+    }
+    out.finish();
 }
